@@ -25,6 +25,7 @@ timeout 900 go test -count=1 "$PKG" > "$SCR/suite.log" 2>&1; suite_rc=$?
 cd /verif
 start=$(date +%s)
 out=$(/verif/mutant.sh "$D/patch.diff" "$PROP" "$TIER" "$@" 2>&1)
+echo "$out" | grep -v "^\s" | cut -c1-400 | tail -40 > "$D/check-output.txt"
 rc=$(echo "$out" | grep -o 'MUTANT-RESULT.*exit=[0-9]*' | grep -o '[0-9]*$')
 classes=$(echo "$out" | grep -o 'class=[^ ]* runs=[0-9]*' | tr '\n' ' ')
 wall=$(( $(date +%s)-start ))
